@@ -277,6 +277,8 @@ class Lifecycle(Spec):
                 return self.err("L11", "error result after the graceful shutdown sequence began") or st
             if inflight:
                 return self.err("L7", "error return while a handler future is in flight") or st
+            if draining:
+                return self.err("L9", "Stop / closed mailbox / exhausted stream ends in an error instead of the graceful shutdown") or st
             return S(phase="failed", pending=None)
         if ev == "ret":
             if phase not in ("okret", "failed"):
